@@ -139,11 +139,23 @@ type preCand struct {
 	Fn  *ssa.Function
 	T   *types.Named
 	F   string
-	Arg int
+	Arg int   // index of the string parameter whose length bounds the field, or -1
+	K   int64 // with Arg == -1: the field is at least this constant
 }
 
 func (c preCand) key() string {
+	if c.Arg < 0 {
+		return fmt.Sprintf("pre|%s|%s>=%d", c.Fn.String(), c.F, c.K)
+	}
 	return fmt.Sprintf("pre|%s|%s>=len(%s)", c.Fn.String(), c.F, c.Fn.Params[c.Arg].Name())
+}
+
+// bound: the right-hand side of the candidate, over the given argument values.
+func (c preCand) bound(fb *fnBounds, args []ssa.Value, at ssa.Instruction) lin {
+	if c.Arg < 0 {
+		return linConst(c.K)
+	}
+	return fb.lenOf(args[c.Arg], at, 0)
 }
 
 func recvStruct(fn *ssa.Function) *types.Named {
@@ -193,7 +205,36 @@ func (bp *boundsProver) preCandidates(fn *ssa.Function) []preCand {
 			continue
 		}
 		for _, f := range intFields(T) {
-			out = append(out, preCand{fn, T, f, i})
+			out = append(out, preCand{fn, T, f, i, 0})
+		}
+	}
+	// field - K with a positive constant K in the body: "the field is at least K" (a helper that steps
+	// the cursor back by the length of something its caller has just matched)
+	seen := map[string]bool{}
+	for _, b := range fn.Blocks {
+		for _, in := range b.Instrs {
+			bo, ok := in.(*ssa.BinOp)
+			if !ok || bo.Op != token.SUB {
+				continue
+			}
+			k, ok := bo.Y.(*ssa.Const)
+			if !ok || k.Value == nil || !isIntType(k.Type()) || k.Int64() <= 0 {
+				continue
+			}
+			ld, ok := bo.X.(*ssa.UnOp)
+			if !ok || ld.Op != token.MUL {
+				continue
+			}
+			fa, ok := ld.X.(*ssa.FieldAddr)
+			if !ok || fa.X != ssa.Value(fn.Params[0]) {
+				continue
+			}
+			fname := fieldOf(fa).Field
+			c := preCand{fn, T, fname, -1, k.Int64()}
+			if !seen[c.key()] {
+				seen[c.key()] = true
+				out = append(out, c)
+			}
 		}
 	}
 	return out
@@ -238,7 +279,11 @@ func (fb *fnBounds) factsBefore(at ssa.Instruction) []constraint {
 		if bp.cand[c.key()] {
 			cls := "fld:" + c.T.String() + "." + c.F
 			f := linVar(fmt.Sprintf("mem(%s.%s@%s)", fb.vid(fb.fn.Params[0], entry), c.F, fb.versionAt(cls, entry)))
-			cs = append(cs, geq(f, fb.lenOf(fb.fn.Params[c.Arg], entry, 0), c.key()))
+			var prms []ssa.Value
+			for _, prm := range fb.fn.Params {
+				prms = append(prms, prm)
+			}
+			cs = append(cs, geq(f, c.bound(fb, prms, entry), c.key()))
 		}
 	}
 	cs = append(cs, fb.closureContract()...)
@@ -834,7 +879,7 @@ func (bp *boundsProver) houdiniGlobal(fns []*ssa.Function) {
 							}
 							cls := "fld:" + c.T.String() + "." + c.F
 							fv := linVar(fmt.Sprintf("mem(%s.%s@%s)", fb.vid(call.Call.Args[0], in), c.F, fb.versionAt(cls, in)))
-							g := geq(fv, fb.lenOf(call.Call.Args[c.Arg], in, 0), c.key())
+							g := geq(fv, c.bound(fb, call.Call.Args, in), c.key())
 							if ok, why := fb.prove(in, []constraint{g}); !ok {
 								drop(c.key(), fmt.Sprintf("not established at call %s (%s)", bp.p.pos(in.Pos()), why))
 							}
